@@ -12,6 +12,22 @@ CHECKS = {
          '1..17 and 1..3 clock cycles and compared with an independent gate-by-gate evaluator; small-scope exhaustive, not sampled',
          'trusted: the reference evaluator in mc/ref.py and mc/netlist.py; numba absent so kernels run as plain Python; bounds in evidence',
          'DESIGN.md section 4 C01'),
+
+ 'C12': ('exploration', 'complete enumeration of the operand space vs. reference algebra',
+         'all 8^k (k=1..4) operand tuples of NOT/AND/OR/XOR in both storage formats, all 4^k for the 4-valued operators, every tuple in '
+         'every lane 0..8, array shapes/broadcasting and out= variants are executed; the operand space is finite and fully enumerated',
+         'trusted: scalar algebra in mc/ref.py written from the module docstring; results compared modulo X/- against it, array vs bit-parallel exactly',
+         'DESIGN.md section 4 C12'),
+ 'C15': ('exploration', 'complete enumeration of small arrays/strings + structured fills',
+         'all strings up to length 4, all arrays with <= 4 elements over 8 values, single-position fills for shapes up to (3,17)/(2,3,9)/(1,2,2,17), '
+         'all 8/16-bit values of every integer dtype and bit-pattern families for 32/64 bit, all byte values for popcount',
+         'trusted: the harness bit packing in checks/c15.py; non-contiguous arrays and >2-D string rendering are outside the stated domain',
+         'DESIGN.md section 4 C15'),
+ 'C19': ('exploration', 'complete enumeration of all library cells x all input combinations',
+         'all 1026 names (re-derived independently from the library text) get the pin-table checks; all 656 names of the listed combinational '
+         'families are evaluated on all 2^n inputs against a datasheet function table; fully exhaustive',
+         'trusted: datasheet table in checks/c19.py; reference graph evaluator; unlisted families get pin checks only',
+         'DESIGN.md section 4 C19'),
 }
 
 NOT_YET = 'check not built yet in this session (see DESIGN.md build order); will be claimed once its exhaustive check exists'
